@@ -78,6 +78,8 @@ Theorem C20_poly_random_exact_degree : Poly_random_stmt.          Proof. exact p
 Print Assumptions C20_poly_random_exact_degree.
 Theorem C20_poly_random_terminates : Poly_random_terminates_stmt. Proof. exact poly_random_terminates. Qed.
 Print Assumptions C20_poly_random_terminates.
+Theorem C20_extension_randiter : Ext_randiter_stmt.               Proof. exact ext_randiter_spec. Qed.
+Print Assumptions C20_extension_randiter.
 Theorem C20_recint_rand_range : Ru_rand_stmt.                     Proof. exact ru_rand_range. Qed.
 Print Assumptions C20_recint_rand_range.
 Theorem C20_modular_recint_random : Modru_random_stmt.            Proof. exact modru_random_range. Qed.
